@@ -714,3 +714,69 @@ def rule_wide_integers_read_exactly(ctx, rep: Report, rid="K14"):
         rep.add(rid, f"myGetScalar:{cls} read through the 64-bit integer type of the same signedness", ok,
                 f"{cls} is read as {got or 'a double (mxGetScalar)'}: values above 2^53 are rounded before they reach the C++ parameter "
                 f"(size_t keys, int64 counters)", hloc(f))
+
+
+# ------------------------------------------------------------------------------------------ K17 nothing is read from an array after it was destroyed
+def rule_no_use_after_destroy(ctx, rep: Report, rid="K17"):
+    """A pointer obtained from an array (`mxGetData(a)`, `mxGetPr(a)`, `mxGetChars(a)`, `mxGetDimensions(a)`) or from
+    `mxArrayToString` is not dereferenced, indexed or handed on after `mxDestroyArray(a)` / `mxFree(p)`, and the array itself is not
+    used again: the value read is whatever the allocator left there (a converter that 'releases its temporaries' two statements
+    before the `return *value`).  Statement order inside one function, by position; branches are not told apart, which is exact
+    for the straight-line converters of this header and is stated as the rule's limit."""
+    h = header(ctx)
+    GETTERS = {"mxGetData", "mxGetPr", "mxGetChars", "mxGetDimensions", "mxGetLogicals", "mxGetPi"}
+    n_fn = n_rel = 0
+    seen_ids = set()
+    for f in h.decls:
+        fs = [f] if f.get("kind") == "FunctionDecl" else [c for c in f.get("inner", []) if isinstance(c, dict) and c.get("kind") == "FunctionDecl"] \
+            if f.get("kind") == "FunctionTemplateDecl" else []
+        for fn in fs:
+            if fn.get("id") in seen_ids or not statements(fn):
+                continue
+            seen_ids.add(fn.get("id"))
+            n_fn += 1
+            releases = [c for c in calls(fn) if callee(c) in ("mxDestroyArray", "mxFree") and call_args(c)]
+            if not releases:
+                continue
+            derived: Dict[str, str] = {}           # pointer variable -> array variable it points into
+            for x in walk(fn):
+                tgt = src = None
+                ptr = False
+                if x.get("kind") == "VarDecl" and x.get("inner"):
+                    tgt, src = x.get("name"), x["inner"][-1]
+                    ptr = (x.get("type") or {}).get("qualType", "").rstrip().endswith("*")
+                elif x.get("kind") == "BinaryOperator" and x.get("opcode") == "=":
+                    tgt, src = ref_name(x["inner"][0]), x["inner"][1]
+                    ptr = (strip(x["inner"][0]).get("type") or {}).get("qualType", "").rstrip().endswith("*")
+                # (a *value* read out of the array before the release is a copy: only pointers go stale)
+                if tgt and src is not None and ptr:
+                    for c in calls(src):
+                        if callee(c) in GETTERS and call_args(c) and ref_name(call_args(c)[0]):
+                            derived[tgt] = ref_name(call_args(c)[0])
+                        if callee(c) == "mxArrayToString":
+                            derived[tgt] = tgt
+            order = {id(x): k for k, x in enumerate(walk(fn))}      # clang prints a node's line only where it changes: source order is the walk order
+            for rel in releases:
+                n_rel += 1
+                victim = ref_name(call_args(rel)[0])
+                if not victim:
+                    continue
+                at = max(order[id(y)] for y in walk(rel))
+                stale = {p for p, a in derived.items() if a == victim} | {victim}
+                rebinds = [(ref_name(x["inner"][0]), order[id(x)]) for x in walk(fn)
+                           if x.get("kind") == "BinaryOperator" and x.get("opcode") == "=" and ref_name(x["inner"][0]) in stale and order[id(x)] > at]
+                uses = []
+                for x in walk(fn):
+                    if x.get("kind") != "DeclRefExpr" or ref_name(x) not in stale or order[id(x)] <= at:
+                        continue
+                    # a fresh assignment to the name re-binds it; anything else is a use
+                    if any(r[0] == ref_name(x) and r[1] <= order[id(x)] for r in rebinds):
+                        continue
+                    uses.append(ref_name(x))
+                rep.add(rid, f"{fn.get('name')}:{callee(rel)}({victim}):nothing of it is used afterwards", not uses,
+                        f"after `{callee(rel)}({victim})` the function still uses {sorted(set(uses))[:3]}: what is read there is a freed block - "
+                        f"an enum argument arrives as whatever the allocator left in it", hloc(rel))
+    rep.units["functions_scanned_for_use_after_destroy"] = n_fn
+    rep.units["release_calls"] = n_rel
+    if n_fn < 30:
+        raise AnalysisError(f"{rep.prop}/{rid}: only {n_fn} functions of the header scanned")
